@@ -3,7 +3,7 @@
      src/ropt/plugins/plan/_utils.py    _violates_constraint, _get_new_optimal_result,
                                         _update_optimal_result, _get_last_result
      src/ropt/plugins/plan/_tracker.py  DefaultTrackerHandler.handle_event
-     src/ropt/plan/_plan.py             Plan.emit_event / Plan.set / Plan.get
+     src/ropt/plan/_plan.py             Plan.emit_event (own handlers, then the parent plan's) / Plan.set / Plan.get
      src/ropt/plan/_basic_optimizer.py  one optimizer step + one 'best' tracker on that step
    Definitions only (no proofs).  A finite float is its exact rational, NaN is None. *)
 From Coq Require Import QArith ZArith List Bool Arith String.
@@ -27,13 +27,16 @@ Record item := { i_id : nat; i_u : facet; i_t : facet }.
 Record event := {
   e_type : Z;                 (* EventType value *)
   e_src  : nat;               (* id of the emitting step *)
+  e_path : list nat;          (* Plan.emit_event: ids of the plans whose handlers are invoked -- the plan of the
+                                 emitting step followed by its chain of parents (nested optimizations) *)
   e_has_results : bool;       (* "results" in event.data *)
   e_has_transformed : bool;   (* "transformed_results" in event.data *)
   e_items : list item
 }.
 
 Inductive what := Best | Last.
-Record config := { c_what : what; c_tol : option Q; c_sources : list nat }.
+Record config := { c_what : what; c_tol : option Q; c_sources : list nat;
+                   c_plan : nat   (* id of the plan the handler was added to *) }.
 
 (* handler state: self["results"] (user object + what can be seen of it) and self._optimal
    (user object, user facet, transformed facet) *)
@@ -139,9 +142,15 @@ Definition handle_event (cfg : config) (st : state) (ev : event) : state :=
     end
   else st.
 
+(* ---- _plan.py: Plan.emit_event ---------------------------------------------------- *)
+(* the handler is invoked iff its plan is the emitting plan or one of its ancestors *)
+Definition reaches (cfg : config) (ev : event) : bool := existsb (Nat.eqb (c_plan cfg)) (e_path ev).
+Definition deliver (cfg : config) (st : state) (ev : event) : state :=
+  if reaches cfg ev then handle_event cfg st ev else st.
+
 Definition step (cfg : config) (st : state) (o : op) : state :=
   match o with
-  | Emit ev => handle_event cfg st ev
+  | Emit ev => deliver cfg st ev
   | Put v => {| stored := v; optimal := optimal st |}
   end.
 
@@ -156,17 +165,19 @@ Fixpoint trace (cfg : config) (st : state) (h : list op) : list (option nat) :=
   end.
 
 (* ---- _basic_optimizer.py --------------------------------------------------------- *)
-(* BasicOptimizer.run: a fresh plan with one optimizer step (id `sid`) and one tracker
-   (what = "best", the given tolerance, sources = {that step}); every event of the run is emitted by
-   that step; the reported result is Plan.get(tracker, "results") at the end. *)
-Definition basic_config (sid : nat) (tol : Q) : config := {| c_what := Best; c_tol := Some tol; c_sources := [sid] |}.
-Definition basic_optimizer (sid : nat) (tol : Q) (evs : list event) : option nat :=
+(* BasicOptimizer.run: a fresh plan (id 0, no parent) with one optimizer step (id `sid`) and one tracker
+   (what = "best", the given constraint_tolerance, sources = {that step}); every event of the run is
+   emitted by that step; the reported result is Plan.get(tracker, "results") at the end. *)
+Definition basic_config (sid : nat) (tol : option Q) : config :=
+  {| c_what := Best; c_tol := tol; c_sources := [sid]; c_plan := 0 |}.
+Definition basic_optimizer (sid : nat) (tol : option Q) (evs : list event) : option nat :=
   stored_id (track (basic_config sid tol) init (map Emit evs)).
 
 (* ---- specification side: the candidates of a history ----------------------------- *)
 (* every delivered (user item, partner) pair the handler is asked to look at, in delivery order *)
+Definition sees (cfg : config) (ev : event) : bool := reaches cfg ev && accepts cfg ev.
 Definition delivered (cfg : config) (h : list event) : list (item * facet) :=
-  flat_map (fun ev => if accepts cfg ev then map (fun it => (it, partner ev it)) (e_items ev) else []) h.
+  flat_map (fun ev => if sees cfg ev then map (fun it => (it, partner ev it)) (e_items ev) else []) h.
 
 Definition defined (f : facet) : bool := is_some (f_obj f).
 (* candidate for 'best': tracked source, function result with functions, feasible, objective not NaN *)
